@@ -132,7 +132,7 @@ pub fn run(out: &str, frames: &[Vec<u8>]) -> usize {
     {
         let fc = muxide::fragmented::FragmentConfig::default();
         w.write(&json!({"ev": "val", "k": k, "f": "defaults", "frag_timescale": fc.timescale, "frag_duration_ms": fc.fragment_duration_ms,
-                        "frag_w": fc.width, "frag_h": fc.height, "opus_rate": muxide::codec::opus::OPUS_SAMPLE_RATE}));
+                        "frag_w": fc.width, "frag_h": fc.height, "frag_sps": bytes_json(&fc.sps), "frag_pps": bytes_json(&fc.pps), "opus_rate": muxide::codec::opus::OPUS_SAMPLE_RATE}));
     }
     // public constants (values fixed by the codec specifications)
     {
